@@ -1,4 +1,4 @@
-//! extras — two corner scenarios against the real crate that the scripted raw lock of the T1/T2
+//! extras — corner scenarios (exclusive and shared paths) against the real crate that the scripted raw lock of the T1/T2
 //! harness cannot express (they need their own raw lock), found by audit agents:
 //!
 //!  * `payload_bomb`  (C03/C12): the unlock loops keep the first panic payload; a later payload is
@@ -15,8 +15,9 @@ use std::time::{Duration, Instant};
 
 use happylock::collection::RefLockCollection;
 use happylock::mutex::Mutex;
+use happylock::rwlock::RwLock;
 use happylock::ThreadKey;
-use lock_api::{GuardNoSend, RawMutex};
+use lock_api::{GuardNoSend, RawMutex, RawRwLock};
 
 /// scripting (global: a happylock `Mutex` does not hand out its raw lock)
 static ARM_UNLOCKS: AtomicBool = AtomicBool::new(false);
@@ -80,6 +81,89 @@ unsafe impl RawMutex for Raw {
 	}
 }
 type M = Mutex<i32, Raw>;
+
+/// scripting for the read-write raw lock
+static RW_ARM_UNLOCKS: AtomicBool = AtomicBool::new(false);
+static RW_UNLOCK_CALLS: AtomicUsize = AtomicUsize::new(0);
+static RW_PAUSE_NEXT_TRY: AtomicBool = AtomicBool::new(false);
+static RW_IN_TRY: AtomicBool = AtomicBool::new(false);
+static RW_RESUME_TRY: AtomicBool = AtomicBool::new(false);
+static RW_UNLOCK_PANICS_ONCE: AtomicBool = AtomicBool::new(false);
+
+/// a spinning reader-writer raw lock (state: usize::MAX = writer, n = n readers); obeys the lock_api
+/// contract, panics when the script says so
+struct RawRw {
+	state: AtomicUsize,
+}
+impl RawRw {
+	fn pause_if_asked(&self) {
+		if RW_PAUSE_NEXT_TRY.swap(false, Ordering::SeqCst) {
+			RW_IN_TRY.store(true, Ordering::SeqCst);
+			let start = Instant::now();
+			while !RW_RESUME_TRY.load(Ordering::SeqCst) && start.elapsed() < Duration::from_secs(5) {
+				std::thread::yield_now();
+			}
+		}
+	}
+	fn after_release(&self) {
+		if RW_UNLOCK_PANICS_ONCE.swap(false, Ordering::SeqCst) {
+			panic!("raw unlock releases, then panics");
+		}
+		if RW_ARM_UNLOCKS.load(Ordering::SeqCst) {
+			match RW_UNLOCK_CALLS.fetch_add(1, Ordering::SeqCst) {
+				0 => panic!("raw unlock panics"),
+				1 => std::panic::panic_any(Bomb),
+				_ => {}
+			}
+		}
+	}
+}
+unsafe impl RawRwLock for RawRw {
+	#[allow(clippy::declare_interior_mutable_const)]
+	const INIT: Self = RawRw { state: AtomicUsize::new(0) };
+	type GuardMarker = GuardNoSend;
+	fn lock_shared(&self) {
+		while !self.try_lock_shared_inner() {
+			std::thread::yield_now();
+		}
+	}
+	fn try_lock_shared(&self) -> bool {
+		self.pause_if_asked();
+		self.try_lock_shared_inner()
+	}
+	unsafe fn unlock_shared(&self) {
+		self.state.fetch_sub(1, Ordering::SeqCst);
+		self.after_release();
+	}
+	fn lock_exclusive(&self) {
+		while self.state.compare_exchange(0, usize::MAX, Ordering::SeqCst, Ordering::SeqCst).is_err() {
+			std::thread::yield_now();
+		}
+	}
+	fn try_lock_exclusive(&self) -> bool {
+		self.pause_if_asked();
+		self.state.compare_exchange(0, usize::MAX, Ordering::SeqCst, Ordering::SeqCst).is_ok()
+	}
+	unsafe fn unlock_exclusive(&self) {
+		self.state.store(0, Ordering::SeqCst);
+		self.after_release();
+	}
+}
+impl RawRw {
+	fn try_lock_shared_inner(&self) -> bool {
+		let mut cur = self.state.load(Ordering::SeqCst);
+		loop {
+			if cur == usize::MAX {
+				return false;
+			}
+			match self.state.compare_exchange(cur, cur + 1, Ordering::SeqCst, Ordering::SeqCst) {
+				Ok(_) => return true,
+				Err(now) => cur = now,
+			}
+		}
+	}
+}
+type Rw = RwLock<i32, RawRw>;
 
 fn payload_bomb() {
 	static LOCKS: [M; 3] = [M::new(0), M::new(0), M::new(0)];
@@ -191,9 +275,82 @@ fn kill_during_try() {
 	println!("kill_during_try;try_was_in_flight={in_try};fresh_try_refused={fresh_refused};in_flight_try_got_guard={got}");
 }
 
+/// the read path of the unlock loops: `scoped_read` on three `RwLock`s whose first two raw
+/// `unlock_shared` calls panic, the second with a payload whose destructor panics
+fn payload_bomb_read() {
+	static LOCKS: [Rw; 3] = [Rw::new(0), Rw::new(0), Rw::new(0)];
+	let mut key = ThreadKey::get().unwrap();
+	let coll = RefLockCollection::new(&LOCKS);
+	let r = catch_unwind(AssertUnwindSafe(|| {
+		coll.scoped_read(&mut key, |g| {
+			let _ = *g[0];
+			RW_ARM_UNLOCKS.store(true, Ordering::SeqCst);
+		})
+	}));
+	RW_ARM_UNLOCKS.store(false, Ordering::SeqCst);
+	let unwound = r.is_err();
+	std::mem::forget(r);
+	let third_free = LOCKS[2].scoped_try_write(&mut key, |_| ()).is_ok();
+	println!("payload_bomb_read;unwound={unwound};third_member_released={third_free}");
+}
+
+/// the in-flight try on the shared path: A holds exclusively; B's `try_read` is pre-empted inside the
+/// raw try; A's raw unlock releases-then-panics (the lock is killed); B resumes
+fn kill_during_try_read() {
+	static L: Rw = Rw::new(0);
+	let key = ThreadKey::get().unwrap();
+	let guard = L.write(key);
+	RW_PAUSE_NEXT_TRY.store(true, Ordering::SeqCst);
+	let b = std::thread::spawn(|| {
+		let key = ThreadKey::get().unwrap();
+		catch_unwind(AssertUnwindSafe(|| L.try_read(key).is_ok())).unwrap_or(false)
+	});
+	let in_try = wait_until(|| RW_IN_TRY.load(Ordering::SeqCst));
+	RW_UNLOCK_PANICS_ONCE.store(true, Ordering::SeqCst);
+	let _ = catch_unwind(AssertUnwindSafe(move || drop(guard)));
+	let fresh_refused = std::thread::spawn(|| {
+		let key = ThreadKey::get().unwrap();
+		catch_unwind(AssertUnwindSafe(|| L.try_read(key).is_err())).unwrap_or(true)
+	})
+	.join()
+	.unwrap_or(false);
+	RW_RESUME_TRY.store(true, Ordering::SeqCst);
+	let got = b.join().unwrap_or(false);
+	println!("kill_during_try_read;try_was_in_flight={in_try};fresh_try_refused={fresh_refused};in_flight_try_got_guard={got}");
+}
+
+/// the same with an exclusive try on the read-write lock
+fn kill_during_try_write() {
+	static L: Rw = Rw::new(0);
+	RW_IN_TRY.store(false, Ordering::SeqCst);
+	RW_RESUME_TRY.store(false, Ordering::SeqCst);
+	let key = ThreadKey::get().unwrap();
+	let guard = L.write(key);
+	RW_PAUSE_NEXT_TRY.store(true, Ordering::SeqCst);
+	let b = std::thread::spawn(|| {
+		let key = ThreadKey::get().unwrap();
+		catch_unwind(AssertUnwindSafe(|| L.try_write(key).is_ok())).unwrap_or(false)
+	});
+	let in_try = wait_until(|| RW_IN_TRY.load(Ordering::SeqCst));
+	RW_UNLOCK_PANICS_ONCE.store(true, Ordering::SeqCst);
+	let _ = catch_unwind(AssertUnwindSafe(move || drop(guard)));
+	let fresh_refused = std::thread::spawn(|| {
+		let key = ThreadKey::get().unwrap();
+		catch_unwind(AssertUnwindSafe(|| L.try_write(key).is_err())).unwrap_or(true)
+	})
+	.join()
+	.unwrap_or(false);
+	RW_RESUME_TRY.store(true, Ordering::SeqCst);
+	let got = b.join().unwrap_or(false);
+	println!("kill_during_try_write;try_was_in_flight={in_try};fresh_try_refused={fresh_refused};in_flight_try_got_guard={got}");
+}
+
 fn main() {
 	std::panic::set_hook(Box::new(|_| {}));
 	let _ = std::thread::spawn(payload_bomb).join();
 	let _ = std::thread::spawn(kill_while_waiting).join();
 	let _ = std::thread::spawn(kill_during_try).join();
+	let _ = std::thread::spawn(payload_bomb_read).join();
+	let _ = std::thread::spawn(kill_during_try_read).join();
+	let _ = std::thread::spawn(kill_during_try_write).join();
 }
